@@ -2,6 +2,7 @@ CONSTANTS
   SeriesFirst = FALSE
   CommitSeqBeforeWrite = TRUE
   FreezeBeforeMetaFlush = FALSE
+  ExpireOnConsumed = FALSE
   AtomicRound = FALSE
   Name = {"m1", "m2"}
   MaxEntries = 3
